@@ -452,3 +452,99 @@ Proof.
   - unfold sresponse_ok in H. rewrite NC, ER in H.
     apply (L_response_ok_iff _ _ _ (mkReq (sqm q) (sqp q) "" resp) segs CP). exact H.
 Qed.
+
+(* ------------------------------ the case table determines the response; order of registration *)
+
+Lemma allow_lists_perm : forall (a b : list string) (P : string -> Prop),
+  NoDup a -> NoDup b -> (forall x, In x a <-> P x) -> (forall x, In x b <-> P x) -> Permutation a b.
+Proof.
+  intros a b P Na Nb Ha Hb. apply NoDup_Permutation; try assumption. intro x. rewrite Ha, Hb. reflexivity.
+Qed.
+
+Definition own_match (T : table) (m : string) (segs : list string) : Prop :=
+  exists t, In t T /\ tm t = m /\ matches (tpat t) segs.
+Definition any_match (T : table) (segs : list string) : Prop :=
+  exists t, In t T /\ matches (tpat t) segs.
+
+(* which of the three situations a response obeying the case table stands for *)
+Lemma resp_ok_class : forall T nf na m segs r, resp_ok T nf na m segs r ->
+  match r with
+  | RHandler _ _ => own_match T m segs
+  | RNotAllowed _ | RNotAllowedCustom => ~ own_match T m segs /\ any_match T segs
+  | RNotFound | RNotFoundCustom => ~ any_match T segs
+  end.
+Proof.
+  intros T nf na m segs [h ps|a| | |] R; cbn in R.
+  - destruct R as [t [[I [E [M _]]] _]]. exists t. auto.
+  - destruct R as [_ [NO [NE [_ AL]]]]. split.
+    + intros [t [I [E M]]]. exact (NO t I E M).
+    + destruct a as [|x a]; [congruence|]. destruct (proj1 (AL x) (or_introl eq_refl)) as [_ [t [I [_ M]]]].
+      exists t. auto.
+  - destruct R as [_ [NO [t [I [_ M]]]]]. split.
+    + intros [t' [I' [E' M']]]. exact (NO t' I' E' M').
+    + exists t. auto.
+  - destruct R as [_ N]. intros [t [I M]]. exact (N t I M).
+  - destruct R as [_ N]. intros [t [I M]]. exact (N t I M).
+Qed.
+
+(* inside the side condition two responses that both obey the case table are the same response
+   (the Allow list up to order): the property statement leaves no freedom *)
+Lemma L_case_table_functional : forall regs nf na m p segs r1 r2,
+  clean_path p = Some segs ->
+  one_var_name_per_position (table_of regs) = true ->
+  resp_ok (table_of regs) nf na m segs r1 -> resp_ok (table_of regs) nf na m segs r2 ->
+  resp_equiv r1 r2.
+Proof.
+  intros regs nf na m p segs r1 r2 CP W R1 R2. set (T := table_of regs) in *.
+  pose proof (resp_ok_class _ _ _ _ _ _ R1) as C1. pose proof (resp_ok_class _ _ _ _ _ _ R2) as C2.
+  assert (OA : own_match T m segs -> any_match T segs).
+  { intros [t [I [_ M]]]. exists t. auto. }
+  destruct r1 as [h1 ps1|a1| | |], r2 as [h2 ps2|a2| | |]; cbn [resp_equiv]; try exact I;
+    try (exfalso; tauto).
+  - destruct R1 as [t1 [B1 [E1 P1]]]. destruct R2 as [t2 [B2 [E2 P2]]].
+    assert (t1 = t2) by (eapply L_best_is_unique; eassumption). subst t2. split; congruence.
+  - destruct R1 as [_ [_ [_ [N1 A1]]]]. destruct R2 as [_ [_ [_ [N2 A2]]]].
+    apply (allow_lists_perm a1 a2 (fun m' => m' <> m /\ exists t, In t T /\ tm t = m' /\ matches (tpat t) segs)); assumption.
+  - cbn in R1, R2. destruct R1 as [E1 _], R2 as [E2 _]. congruence.
+  - cbn in R1, R2. destruct R1 as [E1 _], R2 as [E2 _]. congruence.
+  - cbn in R1, R2. destruct R1 as [E1 _], R2 as [E2 _]. congruence.
+  - cbn in R1, R2. destruct R1 as [E1 _], R2 as [E2 _]. congruence.
+Qed.
+
+(* the case table only looks at WHICH routes are in the table *)
+Lemma resp_ok_same_routes : forall T T' nf na m segs r,
+  (forall t, In t T <-> In t T') -> resp_ok T nf na m segs r -> resp_ok T' nf na m segs r.
+Proof.
+  intros T T' nf na m segs r EQ R.
+  assert (NO : no_own T m segs -> no_own T' m segs).
+  { intros NO t I. apply NO. apply EQ. exact I. }
+  assert (NN : (forall t, In t T -> ~ matches (tpat t) segs) -> forall t, In t T' -> ~ matches (tpat t) segs).
+  { intros N t I. apply N. apply EQ. exact I. }
+  destruct r as [h ps|a| | |]; cbn in *.
+  - destruct R as [t [[I [E [M B]]] HP]]. exists t. split; [|exact HP].
+    split; [apply EQ; exact I|]. split; [exact E|]. split; [exact M|].
+    intros q Iq. apply B. apply EQ. exact Iq.
+  - destruct R as [A [N [NE [ND AL]]]]. split; [exact A|]. split; [apply NO; exact N|].
+    split; [exact NE|]. split; [exact ND|].
+    intro m'. rewrite AL.
+    split; intros [N' [t [I [E M]]]]; (split; [exact N'|]); exists t; (split; [apply EQ; exact I | auto]).
+  - destruct R as [A [N [t [I [E M]]]]]. split; [exact A|]. split; [apply NO; exact N|].
+    exists t. split; [apply EQ; exact I | auto].
+  - destruct R as [A N]. split; [exact A | apply NN; exact N].
+  - destruct R as [A N]. split; [exact A | apply NN; exact N].
+Qed.
+
+(* two registration histories that leave the same SET of routes answer every request alike:
+   the order of the Handle calls (and of the groups / mounts at server level) is irrelevant *)
+Lemma L_registration_order_irrelevant : forall nf na regs regs' m p,
+  (forall t, In t (table_of regs) <-> In t (table_of regs')) ->
+  one_var_name_per_position (table_of regs) = true ->
+  resp_equiv (serve (router_of nf na regs) m p) (serve (router_of nf na regs') m p).
+Proof.
+  intros nf na regs regs' m p EQ W. destruct (clean_path p) as [segs|] eqn:CP.
+  - eapply L_case_table_functional; try eassumption.
+    + eapply L_serve_cases. exact CP.
+    + apply (resp_ok_same_routes (table_of regs')); [intro t; symmetry; apply EQ|].
+      eapply L_serve_cases. exact CP.
+  - rewrite !L_unrooted_not_found by exact CP. destruct nf; exact I.
+Qed.
